@@ -32,6 +32,9 @@ type Program struct {
 // stackTopRepo returns the first /repo function in a debug.Stack() dump.
 func stackTopRepo(stack string) string {
 	for _, ln := range strings.Split(stack, "\n") {
+		if strings.Contains(ln, "(*Compiler).Compile.func") {
+			continue // the deferred bail-out recover re-panics foreign panics: not the origin
+		}
 		if strings.HasPrefix(ln, "github.com/ozanh/ugo") {
 			if i := strings.LastIndex(ln, "("); i > 0 {
 				ln = ln[:i]
